@@ -218,7 +218,30 @@ func mkYAMLRec(s, num string) yamlRec {
 	return r
 }
 
-var yamlKinds = []string{"struct", "*struct", "slice-struct", "map", "generic", "generic-deep", "string", "int64", "slice-string"}
+var yamlKinds = []string{"struct", "*struct", "slice-struct", "map", "generic", "generic-deep", "string", "int64", "slice-string", "jsonm-struct", "*jsonm-struct"}
+
+// jsonModel is what a generated model looks like: plain fields, and a MarshalJSON of its own (value
+// receiver, so that the value and the pointer are both json.Marshalers). Its integers are odd and, for
+// nearly every text, beyond 2^53: no float64 holds them.
+type jsonModel struct {
+	ID      int64             `json:"id" yaml:"id"`
+	Balance uint64            `json:"balance" yaml:"balance"`
+	Name    string            `json:"name" yaml:"name"`
+	Tags    []string          `json:"tags" yaml:"tags"`
+	Props   map[string]string `json:"props" yaml:"props"`
+	In      yamlInner         `json:"in" yaml:"in"`
+}
+
+func (m jsonModel) MarshalJSON() ([]byte, error) {
+	type plain jsonModel
+	return json.Marshal(plain(m))
+}
+
+func mkJSONModel(s, num string) jsonModel {
+	u := h64(s)
+	return jsonModel{ID: int64(u) | 1, Balance: h64(num+s) | 1, Name: s, Tags: pieces(s), Props: map[string]string{"k": s, "n": num},
+		In: yamlInner{A: num, N: math.MaxInt64 - 2*int64(len(s))}}
+}
 
 func buildYAML(kind, s, num string) (v interface{}, dst interface{}, ok bool) {
 	switch kind {
@@ -229,6 +252,11 @@ func buildYAML(kind, s, num string) (v interface{}, dst interface{}, ok bool) {
 		v = &x
 	case "slice-struct":
 		v = []yamlRec{mkYAMLRec(s, num), mkYAMLRec(num, num)}
+	case "jsonm-struct":
+		v = mkJSONModel(s, num)
+	case "*jsonm-struct":
+		x := mkJSONModel(s, num)
+		v = &x
 	case "map":
 		v = yamlGeneric(s, num, 1).(map[string]interface{})
 	case "generic":
